@@ -25,7 +25,7 @@ if [ $rc_test -ne 0 ] || [ $rc_with -eq 0 ] || [ $rc_without -ne 0 ]; then echo 
 dst=/verif/seeded/$id
 mkdir -p $dst
 cp /tmp/ingest-$id.diff $dst/patch.diff
-sed "s#\"$wt\"#__import__('os').environ.get('ROBOTOOLS_REPO', '/repo')#; s#'$wt'#__import__('os').environ.get('ROBOTOOLS_REPO', '/repo')#" seeded/demo.py > $dst/demo.py
+sed "s#\"$wt/\"#__import__('os').environ.get('ROBOTOOLS_REPO', '/repo')#; s#'$wt/'#__import__('os').environ.get('ROBOTOOLS_REPO', '/repo')#; s#\"$wt\"#__import__('os').environ.get('ROBOTOOLS_REPO', '/repo')#; s#'$wt'#__import__('os').environ.get('ROBOTOOLS_REPO', '/repo')#" seeded/demo.py > $dst/demo.py
 cp seeded/meta.json $dst/meta.agent.json
 cp /tmp/ingest-$id.with $dst/demo.with.txt; cp /tmp/ingest-$id.without $dst/demo.without.txt
 echo "ACCEPTED -> $dst"
